@@ -1,5 +1,6 @@
 import Mathlib.Algebra.BigOperators.Group.Finset.Basic
 import Mathlib.Algebra.BigOperators.Intervals
+import Mathlib.Algebra.BigOperators.Ring.Finset
 import Mathlib.Algebra.Field.Basic
 import Mathlib.Tactic.Ring
 import Mathlib.Tactic.FieldSimp
@@ -16,14 +17,16 @@ variable {K : Type} [Field K]
 
 /-! ### array facts -/
 
-theorem wr_wr_same (a : Array K) (i : Nat) (v w : K) : wr (wr a i v) i w = wr a i w := by
+theorem wr_wr_same {α : Type} (a : Array α) (i : Nat) (v w : α) :
+    wr (wr a i v) i w = wr a i w := by
   simp [wr, Array.setIfInBounds_setIfInBounds]
 
-theorem wr_rd_self (a : Array K) (i : Nat) : wr a i (rd a i) = a := by
+theorem wr_rd_self {α : Type} [OfNat α 0] (a : Array α) (i : Nat) : wr a i (rd a i) = a := by
   apply Array.ext
   · simp
   · intro j h1 h2
-    simp only [wr, rd, Array.getElem_setIfInBounds]
+    simp only [wr, rd]
+    rw [Array.getElem_setIfInBounds]
     split
     · next h => subst h; simp [Array.getD_eq_getD_getElem?, h2]
     · rfl
@@ -82,7 +85,7 @@ theorem sum_filterMap_range' {β : Type} (g : Nat → Option β) (f : β → K) 
       ← Nat.add_assoc, Finset.sum_Ico_succ_top (Nat.le_add_right a len)]
     congr 1
     simp only [Nat.one_mul]
-    cases h : g (a + len) <;> simp [List.filterMap_cons, h]
+    cases h : g (a + len) <;> simp [h]
 
 theorem sum_filterMap_range {β : Type} (g : Nat → Option β) (f : β → K) (i : Nat) :
     (((List.range i).filterMap g).map f).sum = ∑ j ∈ range i, (g j).elim 0 f := by
@@ -222,5 +225,204 @@ theorem lu_compose (n : Nat) (Lm Um : Nat → Nat → K) (b z y : Nat → K)
   apply sum_congr rfl
   intro k hk
   rw [← Finset.mul_sum, hU k (mem_range.mp hk)]
+
+/-! ### the model's substitution rows -/
+
+/-- one row of a substitution pass over the columns `a … a+len-1` (none equal to the row `i`) -/
+theorem subRow_fold (M : Array K) (p : Pattern) (i : Nat) (x : Array K) (hi : i < x.size)
+    (a len : Nat) (hne : ∀ j, a ≤ j → j < a + len → j ≠ i) :
+    ((List.range' a len).filterMap fun j =>
+        if p.zero? i j then none else some (p.rk i j, j)).foldl
+        (fun x q => wr x i (rd x i - rd M q.1 * rd x q.2)) x
+      = wr x i (rd x i - ∑ j ∈ Ico a (a + len), view p M i j * rd x j) := by
+  refine (pairFold (fun (x : Array K) (q : Nat × Nat) => rd M q.1 * rd x q.2) i _ x hi ?_).trans ?_
+  · intro q hq v
+    obtain ⟨j, h1, h2, h3⟩ := mem_filterMap_range' _ _ _ _ hq
+    have hq2 : q.2 = j := by
+      split at h3
+      · cases h3
+      · cases h3; rfl
+    show rd M q.1 * rd (wr x i v) q.2 = rd M q.1 * rd x q.2
+    rw [rd_wr_ne _ _ _ _ (by rw [hq2]; exact (hne j h1 h2).symm)]
+  · rw [foldl_sub_eq, sum_filterMap_range']
+    congr 2
+    apply sum_congr rfl
+    intro j _
+    cases hz : p.zero? i j <;> simp [view, hz]
+
+/-- forward step of `solveCell` -/
+def fwStep (L : Array K) (s : Array K × Nat) (r : SubRow) : Array K × Nat :=
+  let x := r.pairs.foldl (fun x p => wr x s.2 (rd x s.2 - rd L p.1 * rd x p.2)) s.1
+  (wr x s.2 (rd x s.2 / rd L r.diag), s.2 + 1)
+
+/-- backward step of `solveCell` / `solveInPlaceCell` -/
+def bwStep (U : Array K) (s : Array K × Nat) (r : SubRow) : Array K × Nat :=
+  let x := r.pairs.foldl (fun x p => wr x s.2 (rd x s.2 - rd U p.1 * rd x p.2)) s.1
+  (wr x s.2 (rd x s.2 / rd U r.diag), if s.2 = 0 then 0 else s.2 - 1)
+
+/-- forward step of `solveInPlaceCell` (unit diagonal: no division) -/
+def fwStepIP (M : Array K) (s : Array K × Nat) (r : SubRow) : Array K × Nat :=
+  let x := r.pairs.foldl (fun x p => wr x s.2 (rd x s.2 - rd M p.1 * rd x p.2)) s.1
+  (x, s.2 + 1)
+
+theorem solveCell_eq (fw bw : List SubRow) (L U x : Array K) :
+    solveCell fw bw L U x
+      = (bw.foldl (bwStep U) ((fw.foldl (fwStep L) (x, 0)).1,
+            (fw.foldl (fwStep L) (x, 0)).1.size - 1)).1 := rfl
+
+theorem solveInPlaceCell_eq (fw bw : List SubRow) (M x : Array K) :
+    solveInPlaceCell fw bw M x
+      = (bw.foldl (bwStep M) ((fw.foldl (fwStepIP M) (x, 0)).1,
+            (fw.foldl (fwStepIP M) (x, 0)).1.size - 1)).1 := rfl
+
+/-- forward row `i` of `solverRows` -/
+def fwRow (Lp : Pattern) (i : Nat) : SubRow :=
+  ⟨(List.range i).filterMap fun j => if Lp.zero? i j then none else some (Lp.rk i j, j), Lp.rk i i⟩
+
+/-- backward row `i` of `solverRows` -/
+def bwRow (n : Nat) (Up : Pattern) (i : Nat) : SubRow :=
+  ⟨(rangeFrom (i + 1) n).filterMap fun j => if Up.zero? i j then none else some (Up.rk i j, j),
+    Up.rk i i⟩
+
+theorem solverRows_eq (Lp Up : Pattern) :
+    solverRows Lp Up = ((List.range Lp.n).map (fwRow Lp), (List.range Lp.n).reverse.map (bwRow Lp.n Up)) :=
+  rfl
+
+theorem fwStep_row (Lp : Pattern) (L x : Array K) (i : Nat) (hi : i < x.size) :
+    fwStep L (x, i) (fwRow Lp i)
+      = (wr x i ((rd x i - ∑ j ∈ range i, view Lp L i j * rd x j) / rd L (Lp.rk i i)), i + 1) := by
+  have h := subRow_fold L Lp i x hi 0 i (by intro j _ h; omega)
+  rw [← List.range_eq_range', Nat.zero_add, ← Finset.range_eq_Ico] at h
+  simp only [fwStep, fwRow, h, rd_wr_same _ _ _ hi, wr_wr_same]
+
+theorem fwStepIP_row (P : Pattern) (M x : Array K) (i : Nat) (hi : i < x.size) :
+    fwStepIP M (x, i) (fwRow P i)
+      = (wr x i ((rd x i - ∑ j ∈ range i, view P M i j * rd x j) / 1), i + 1) := by
+  have h := subRow_fold M P i x hi 0 i (by intro j _ h; omega)
+  rw [← List.range_eq_range', Nat.zero_add, ← Finset.range_eq_Ico] at h
+  simp only [fwStepIP, fwRow, h, div_one]
+
+theorem bwStep_row (n : Nat) (Up : Pattern) (U x : Array K) (i : Nat) (hi : i < x.size)
+    (hin : i < n) :
+    bwStep U (x, i) (bwRow n Up i)
+      = (wr x i ((rd x i - ∑ j ∈ Ico (i + 1) n, view Up U i j * rd x j) / rd U (Up.rk i i)),
+          if i = 0 then 0 else i - 1) := by
+  have h := subRow_fold U Up i x hi (i + 1) (n - (i + 1)) (by intro j h _; omega)
+  rw [show i + 1 + (n - (i + 1)) = n by omega] at h
+  simp only [bwStep, bwRow, rangeFrom, h, rd_wr_same _ _ _ hi, wr_wr_same]
+
+/-! ### C04 for one cell -/
+
+/-- forward + backward substitution with coefficient matrices `Lc` (strictly lower part used,
+    diagonal `dL`) and `Uc` (strictly upper part used, diagonal `dU`) -/
+theorem solve_passes (n : Nat) (Lc Uc : Nat → Nat → K) (dL dU : Nat → K)
+    (fstep bstep : Array K × Nat → SubRow → Array K × Nat) (frow brow : Nat → SubRow)
+    (hf : ∀ x i, i < n → x.size = n → fstep (x, i) (frow i)
+        = (wr x i ((rd x i - ∑ j ∈ range i, Lc i j * rd x j) / dL i), i + 1))
+    (hb : ∀ x i, i < n → x.size = n → bstep (x, i) (brow i)
+        = (wr x i ((rd x i - ∑ j ∈ Ico (i + 1) n, Uc i j * rd x j) / dU i),
+            if i = 0 then 0 else i - 1))
+    (hdL : ∀ i, i < n → dL i ≠ 0) (hdU : ∀ i, i < n → dU i ≠ 0)
+    (b : Array K) (hbs : b.size = n) :
+    ∃ z y : Array K,
+      (((List.range n).reverse.map brow).foldl bstep
+        ((((List.range n).map frow).foldl fstep (b, 0)).1,
+          (((List.range n).map frow).foldl fstep (b, 0)).1.size - 1)).1 = y ∧
+      (∀ i, i < n → (∑ j ∈ range i, Lc i j * rd z j) + dL i * rd z i = rd b i) ∧
+      (∀ i, i < n → (∑ j ∈ Ico (i + 1) n, Uc i j * rd y j) + dU i * rd y i = rd z i) := by
+  obtain ⟨z, hz, hzs, hz1, _⟩ := forward_pass n Lc dL fstep frow hf hdL b hbs n (le_refl n)
+  rw [hz]
+  simp only [hzs]
+  obtain ⟨_, g2, _⟩ := backward_pass n Uc dU bstep brow hb hdU n (le_refl n) z hzs
+  exact ⟨z, _, rfl, hz1, g2⟩
+
+/-- the two triangular systems produced by `solve_passes`, read through matrices `Lm`, `Um` that
+    are lower / upper triangular on the block, give `(Lm·Um) y = b` -/
+theorem solve_compose (n : Nat) (Lm Um Lc Uc : Nat → Nat → K) (dL dU : Nat → K) (b z y : Nat → K)
+    (hLlow : ∀ i j, i < n → j < i → Lm i j = Lc i j) (hLd : ∀ i, i < n → Lm i i = dL i)
+    (hLup : ∀ i j, i < n → j < n → i < j → Lm i j = 0)
+    (hUup : ∀ i j, i < n → j < n → i < j → Um i j = Uc i j) (hUd : ∀ i, i < n → Um i i = dU i)
+    (hUlow : ∀ i j, i < n → j < i → Um i j = 0)
+    (hz : ∀ i, i < n → (∑ j ∈ range i, Lc i j * z j) + dL i * z i = b i)
+    (hy : ∀ i, i < n → (∑ j ∈ Ico (i + 1) n, Uc i j * y j) + dU i * y i = z i)
+    (i : Nat) (hi : i < n) :
+    ∑ j ∈ range n, (∑ k ∈ range n, Lm i k * Um k j) * y j = b i := by
+  apply lu_compose n Lm Um b z y _ _ i hi
+  · intro i hi
+    rw [sum_lower n i hi _ (by intro j h1 h2; rw [hLup i j hi h2 h1]; ring), hLd i hi, ← hz i hi]
+    congr 1
+    apply sum_congr rfl
+    intro j hj
+    rw [hLlow i j hi (mem_range.mp hj)]
+  · intro k hk
+    rw [sum_upper n k hk _ (by intro j h1; rw [hUlow k j hk h1]; ring), hUd k hk, ← hy k hk]
+    congr 1
+    apply sum_congr rfl
+    intro j hj
+    have := mem_Ico.mp hj
+    rw [hUup k j hk this.2 (by omega)]
+
+/-- strictly lower part of `V` with a unit diagonal (the `L` factor packed in an in-place LU) -/
+def lowerUnit (V : Nat → Nat → K) (i j : Nat) : K :=
+  if j < i then V i j else if i = j then 1 else 0
+
+/-- upper part of `V` including the diagonal (the `U` factor packed in an in-place LU) -/
+def upperPart (V : Nat → Nat → K) (i j : Nat) : K := if i ≤ j then V i j else 0
+
+theorem solveCell_correct (Lp Up : Pattern) (L U x : Array K) (n : Nat)
+    (hn : Lp.n = n) (hx : x.size = n)
+    (hLd : ∀ i, i < n → view Lp L i i ≠ 0)
+    (hLu : ∀ i j, i < n → j < n → i < j → view Lp L i j = 0)
+    (hUd : ∀ i, i < n → view Up U i i ≠ 0)
+    (hUl : ∀ i j, i < n → j < n → j < i → view Up U i j = 0) (i : Nat) (hi : i < n) :
+    ∑ j ∈ range n, (∑ k ∈ range n, view Lp L i k * view Up U k j)
+        * rd (solveCell (solverRows Lp Up).1 (solverRows Lp Up).2 L U x) j = rd x i := by
+  have hdl : ∀ i, i < n → view Lp L i i = rd L (Lp.rk i i) := fun i hi =>
+    view_present _ _ _ _ (present_of_view_ne _ _ _ _ (hLd i hi))
+  have hdu : ∀ i, i < n → view Up U i i = rd U (Up.rk i i) := fun i hi =>
+    view_present _ _ _ _ (present_of_view_ne _ _ _ _ (hUd i hi))
+  rw [solveCell_eq, solverRows_eq, hn]
+  obtain ⟨z, y, hy, hz1, hy1⟩ := solve_passes n (view Lp L) (view Up U)
+    (fun i => rd L (Lp.rk i i)) (fun i => rd U (Up.rk i i)) (fwStep L) (bwStep U)
+    (fwRow Lp) (bwRow n Up)
+    (fun x i hi hx => fwStep_row Lp L x i (by omega))
+    (fun x i hi hx => bwStep_row n Up U x i (by omega) hi)
+    (fun i hi => by rw [← hdl i hi]; exact hLd i hi)
+    (fun i hi => by rw [← hdu i hi]; exact hUd i hi) x hx
+  rw [hy]
+  exact solve_compose n (view Lp L) (view Up U) (view Lp L) (view Up U) _ _ (rd x) (rd z) (rd y)
+    (fun _ _ _ _ => rfl) hdl hLu (fun _ _ _ _ _ => rfl) hdu (fun i j hi hj => hUl i j hi (by omega) hj)
+    hz1 hy1 i hi
+
+theorem solveInPlaceCell_correct (P : Pattern) (M x : Array K) (n : Nat)
+    (hn : P.n = n) (hx : x.size = n) (hd : ∀ i, i < n → view P M i i ≠ 0) (i : Nat) (hi : i < n) :
+    ∑ j ∈ range n, (∑ k ∈ range n, lowerUnit (view P M) i k * upperPart (view P M) k j)
+        * rd (solveInPlaceCell (solverRows P P).1 (solverRows P P).2 M x) j = rd x i := by
+  have hdu : ∀ i, i < n → view P M i i = rd M (P.rk i i) := fun i hi =>
+    view_present _ _ _ _ (present_of_view_ne _ _ _ _ (hd i hi))
+  rw [solveInPlaceCell_eq, solverRows_eq, hn]
+  obtain ⟨z, y, hy, hz1, hy1⟩ := solve_passes n (view P M) (view P M)
+    (fun _ => 1) (fun i => rd M (P.rk i i)) (fwStepIP M) (bwStep M)
+    (fwRow P) (bwRow n P)
+    (fun x i hi hx => fwStepIP_row P M x i (by omega))
+    (fun x i hi hx => bwStep_row n P M x i (by omega) hi)
+    (fun i hi => one_ne_zero)
+    (fun i hi => by rw [← hdu i hi]; exact hd i hi) x hx
+  rw [hy]
+  refine solve_compose n (lowerUnit (view P M)) (upperPart (view P M)) (view P M) (view P M) _ _
+    (rd x) (rd z) (rd y) ?_ ?_ ?_ ?_ ?_ ?_ hz1 hy1 i hi
+  · intro i j _ hj; simp [lowerUnit, hj]
+  · intro i _; simp [lowerUnit]
+  · intro i j _ _ hij
+    have h1 : ¬ j < i := by omega
+    have h2 : ¬ i = j := by omega
+    simp [lowerUnit, h1, h2]
+  · intro i j _ _ hij
+    have : i ≤ j := by omega
+    simp [upperPart, this]
+  · intro i hi; simp [upperPart, hdu i hi]
+  · intro i j _ hj
+    have : ¬ i ≤ j := by omega
+    simp [upperPart, this]
 
 end Micm
